@@ -357,7 +357,7 @@ Proof. unfold in_range. intros H. lia. Qed.
 
 Theorem pstep_keeps s o : PInv s -> fresh_invoice s o -> PInv (fst (pstep s o)).
 Proof.
-  intros HI Hf. destruct o as [h a|ch c ok|ch c ok|ch|]; cbn [Payments.pstep fresh_invoice] in *.
+  intros HI Hf. destruct o as [h a|ch c ok|ch c ok|ch|hf|]; cbn [Payments.pstep fresh_invoice] in *.
   - destruct (inv s h) as [a0|] eqn:Ei; cbn [fst]; [exact HI|].
     destruct HI as [Hs Hp Hk]. specialize (Hf eq_refl). constructor.
     + exact Hs.
@@ -383,6 +383,7 @@ Proof.
     destruct (negb (validate_payments nch max_fee_msat max_fee_pct s ch (Some c) None)) eqn:E2; cbn [fst]; [exact HI|].
     apply negb_false_iff in E1, E2.
     apply update_keeps; try assumption; [apply in_range_lt; exact E1 | |]; intros h; reflexivity.
+  - cbn [fst]. exact HI.
   - cbn [fst]. apply restore_keeps. exact HI.
 Qed.
 
